@@ -172,7 +172,7 @@ func replace(s, old, new string) string {
 
 // ---- declared types at the three boundaries
 
-var types = []string{"int", "string", "array", "Base", "?int", "int|string"}
+var types = []string{"int", "string", "array", "Base", "?int", "int|string", "A|int"}
 
 // value expression of runtime kind v
 var valueExprs = []string{"$pw", "\"s\"", "[1]", "new Base()", "new Child()", "new Sib()", "null", "1.5", "true"}
@@ -185,9 +185,11 @@ var accepts = [][]bool{
 	{false, false, false, true, true, false, false, false, false},  // Base (and its subclass)
 	{true, false, false, false, false, false, true, false, false},  // ?int
 	{true, true, false, false, false, false, false, false, false},  // int|string
+	{true, false, false, false, false, false, false, false, false}, // A|int (a union whose first member is a one-letter class name)
 }
 
 const typeFixture = `
+class A { }
 class Base { public $x = 0; }
 class Child extends Base {}
 class Sib {}
@@ -207,7 +209,7 @@ function gives($v): TYPE { return $v; }
 
 // a default value of each declared type (the constructor parameter is optional so that
 // `new Holder()` stays possible for the other boundaries)
-var typeDefaults = []string{"0", "\"\"", "[]", "null", "null", "0"}
+var typeDefaults = []string{"0", "\"\"", "[]", "null", "null", "0", "0"}
 
 // boundaries: where a declared type meets a value
 var boundaries = []struct {
